@@ -23,6 +23,20 @@ CLAIMED = {
         design="DESIGN.md section 2, C01",
         technique="symbolic-shape execution of base.py on an index-map backend; QF_NIA/LIA validity queries (z3)",
     ),
+    "C14": dict(
+        text="Zero-budget runs, weight absorption and fixed modes of every decomposition that accepts a user initialisation are executed symbolically with init weights "
+        "unrestricted in sign: dense(result) == dense(init) at zero budget (own index-sum oracle), one sweep from (w, F) and from the weight-absorbed re-expression gives the "
+        "same iterate (exact Cramer solves, order 2), and the returned factor of every fixed mode is the supplied term array (bit-identical in the float replay).",
+        design="DESIGN.md section 2, C14",
+        technique="symbolic execution; polynomial/term-identity validity queries incl. R-th root atoms (z3)",
+    ),
+    "C16": dict(
+        text="Non-interference: every seed-accepting entry point is executed twice symbolically with the same integer seed (and with two identically seeded generators); draws from a "
+        "seeded stream are uninterpreted terms rnd(seed, k, pos), draws from the global NumPy stream (incl. module-level np.random.* calls, which are intercepted) are fresh "
+        "unrelated variables per run; z3 decides whether the two outputs can differ and the harness checks that the global stream was not consumed or reseeded.",
+        design="DESIGN.md section 2, C16",
+        technique="two-run symbolic execution with an uninterpreted-function RNG model; equality validity queries (z3)",
+    ),
     "C15": dict(
         text="For each listed public entry point and argument kind (arrays, transposed views, factor tuples/lists, wrapper objects, option lists, masks, fixed modes, "
         "user initialisations, a raising call) every caller-owned argument is snapshotted term by term, the real function runs symbolically (the in-place inner "
